@@ -38,8 +38,8 @@ func ghost_lastState(p *statePool) *lua.LState   { panic("ghost") }
 
 // A Lua value never holds a nil userdata pointer (same text as the assumption made where values come
 // from the interpreter, contracts/ext/lua.go).
-//@ func spec_lvOK
-//@   inline
+// @ func spec_lvOK
+// @   inline
 func spec_lvOK(lv lua.LValue) bool {
 	ud, ok := lv.(*lua.LUserData)
 	return !ok || ud != nil
